@@ -24,4 +24,5 @@ open(p,'w').write(s)
 PY
 rsync -a --delete $V/sim/harness/ "$S/harness/"
 cd "$S/harness"
+cat /repo/go.sum $V/sim/harness/go.sum.extra > go.sum
 go1.26.8 test -c -trimpath -o "$S/harness.test" .
